@@ -22,7 +22,7 @@ PROPS["C09"] = dict(
     rule="histories of 8-30 (thorough: 8-68) messages issue / edit / mint / burn / transfer-owner / update-params by 4 actors "
          "(owners and strangers, ~7% malformed), 1-4 tokens, scales 0..18, initial supply up to 10^11, maximum up to 2^64-1, "
          "mint amounts at the remaining room and room+-1 and at 2^64 / 2^128 / 2^200 / 2^255 (-1), burns of 2^128 / 2^255, burns of half a unit / one min unit / everything, edits of the maximum at "
-         "floor(supply/10^scale) and +-1 and at the initial supply +-1, tax / mint-fee ratio / base fee over {0, default, 1, odd}; "
+         "floor(supply/10^scale) and +-1 and at the initial supply +-1, tax / mint-fee ratio / base fee over {0, default, 1, odd, 2^195-1, 2^195}; "
          "a quarter of the histories contain a token whose SYMBOL equals another token's MIN UNIT (other owner) with cross-token mints / burns / edits / "
          "transfers through the shared string; non-trivial = a mint or edit is attempted after a burn, or by a non-owner, or after a transfer of ownership",
     codes={1: "token-supply-exceeds-cap", 2: "token-identity-rebound", 3: "token-non-owner-governs", 4: "token-non-mintable-minted",
@@ -57,7 +57,7 @@ PROPS["C10"] = dict(
          "non-trivial = the exact output has a fractional part; stream erc20: histories of 12-34 (thorough: 12-72) messages: issue, deploy ERC20 "
          "(authority / stranger / unregistered min unit), swap to / from ERC20 (own and foreign receivers, Ethereum-only holders, blocked receiver, "
          "amounts at balance and balance+1, ERC20 disabled, EVM double misbehaving in 8 ways), ERC20 implementation upgrades (authority / stranger / bad address / reverting beacon), swap-to-native through the EVM PostTxProcessing hook "
-         "(receipts with the SwapToNative log of the bound contract after its simulated burn, plus foreign logs; zero amounts, invalid / blocked receivers), fee-token swaps over a random swap registry, mint; a quarter of the histories contain a token whose SYMBOL equals another token's MIN UNIT (different scales, both "
+         "(receipts with the SwapToNative log of the bound contract after its simulated burn, plus foreign logs; zero amounts, invalid / blocked receivers), fee-token swaps over a random swap registry (also offers of 2^190..2^255, where LegacyDec overflows and the message aborts), mint; a quarter of the histories contain a token whose SYMBOL equals another token's MIN UNIT (different scales, both "
          "with an ERC20 contract, a ratio-1 registry entry targeting the clashing min unit) so that symbol-first and min-unit lookups disagree; "
          "burn, update-params; non-trivial = at least one successful and one failed conversion, or a successful conversion and a successful fee swap",
     codes={1: "token-to-erc20-not-conserved", 2: "token-from-erc20-not-conserved", 3: "token-failed-conversion-changed-state",
